@@ -40,6 +40,10 @@ namespace BitSerializer::Detail
 			return true;
 		}
 
+		// Reading of the last chunk sets `eofbit` and `failbit` which prevent seeking
+		if (pos != mStreamPos && mStream.eof()) {
+			mStream.clear(mStream.rdstate() & ~(std::ios_base::eofbit | std::ios_base::failbit));
+		}
 		if (pos == mStreamPos || !mStream.seekg(static_cast<std::streamoff>(pos)).fail())
 		{
 			mStreamPos = pos;
